@@ -78,6 +78,19 @@ def cases(tier, seed):
                 combos = [(v, a, b) for v in gen.VERSIONS for a, b in gen.SWITCHES] if i % 3 == 0 else [("0", False, False), ("15", True, True)]
             for version, port_nr, protocol_nr in combos:
                 out.append((line, platform, version, port_nr, protocol_nr))
+    # every port name a (platform, version) accepts, in source and destination position, alone and after another port
+    from pyvc import loader
+    c = loader.module_constants("cisco_acl.port_name")
+    tabs = {("ios", "15"): ("TCP_NAME_PORT__IOS_15", "UDP_NAME_PORT__IOS_15"), ("ios", "16"): ("TCP_NAME_PORT__IOS_16", "UDP_NAME_PORT__IOS_16"),
+            ("ios", "0"): ("TCP_NAME_PORT__IOS_16", "UDP_NAME_PORT__IOS_16"), ("nxos", "9"): ("TCP_NAME_PORT__NXOS", "UDP_NAME_PORT__NXOS")}
+    for (platform, version), (tt, ut) in tabs.items():
+        for proto, tab in (("tcp", tt), ("udp", ut)):
+            for name in c[tab]:
+                for port_nr in (False, True):
+                    out.append((f"permit {proto} any any eq {name} log", platform, version, port_nr, False))
+                    out.append((f"permit {proto} any eq {name} any", platform, version, port_nr, False))
+                    if platform == "ios":
+                        out.append((f"permit {proto} any any eq 4444 {name}", platform, version, port_nr, False))
     # the protocol token 0 (IANA HOPOPT) - the library identifies it with the keyword `ip`
     for platform in ("ios", "nxos"):
         out.append(("permit 0 any any", platform, "0", False, False))
